@@ -16,12 +16,13 @@ import (
 	"strconv"
 	"strings"
 	"time"
+	. "verifharness/vhlib"
 
 	"github.com/hknutzen/Netspoc-Approve/go/pkg/program"
 	"github.com/hknutzen/Netspoc-Approve/go/pkg/status"
 )
 
-func init() { register("C13", runC13) }
+func main() { Main(map[string]PropFunc{"C13": runC13}) }
 
 type c13Event struct {
 	Kind string `json:"kind"`
@@ -265,7 +266,7 @@ func c13Exhaustive(length int, f func([]c13Event)) {
 }
 
 func runC13(ctx *Ctx) *Result {
-	res := newResult()
+	res := NewResult()
 	res.Rule = "histories over {new policy (same/different code in six files), approve ok/failed, compare, compare with errors, " +
 		"drift, bzip2, removal, damaged status} with strictly increasing TEST_TIME, replayed on the real status package and the " +
 		"real missing-approve binary; corpus first, then seeded random, then (thorough) all histories of length<=6 over an " +
@@ -277,10 +278,7 @@ func runC13(ctx *Ctx) *Result {
 	}
 	defer os.RemoveAll(tmp)
 	bin := filepath.Join(tmp, "missing-approve")
-	repo := os.Getenv("VERIF_REPO")
-	if repo == "" {
-		repo = "/repo"
-	}
+	repo := ctx.Repo
 	cmd := exec.Command("go", "build", "-o", bin, "./cmd/missing-approve")
 	cmd.Dir = filepath.Join(repo, "go")
 	if out, err := cmd.CombinedOutput(); err != nil {
@@ -376,16 +374,12 @@ func runC13(ctx *Ctx) *Result {
 
 	if ctx.Replay != "" {
 		var es []c13Event
-		if err := readReplay(ctx.Replay, &es); err != nil {
+		if err := ReadReplay(ctx.Replay, &es); err != nil {
 			fmt.Fprintln(os.Stderr, err)
 			os.Exit(2)
 		}
-		runHistory(es, ctx.rng.Fork())
-		fmt.Println(jsonStr(res))
-		if len(res.Failures)+len(res.Disagreements) > 0 {
-			os.Exit(1)
-		}
-		os.Exit(0)
+		runHistory(es, ctx.Rng.Fork())
+		return res
 	}
 	// corpus
 	corpus := [][]c13Event{
@@ -397,17 +391,17 @@ func runC13(ctx *Ctx) *Result {
 			{Kind: "ok"}, {Kind: "cmp"}, {Kind: "np", Arg: "1,0,0,0,0,0"}, {Kind: "bz", Arg: "1"}},
 	}
 	for _, es := range corpus {
-		runHistory(es, ctx.rng.Fork())
+		runHistory(es, ctx.Rng.Fork())
 	}
 	n := ctx.N(500, 12000)
 	maxLen := ctx.N(12, 20)
 	for i := 0; i < n; i++ {
-		rng := ctx.rng.Fork()
+		rng := ctx.Rng.Fork()
 		runHistory(c13GenHistory(rng, maxLen), rng)
 	}
 	if ctx.Thorough() {
 		for l := 2; l <= 5; l++ {
-			c13Exhaustive(l, func(es []c13Event) { runHistory(es, ctx.rng.Fork()) })
+			c13Exhaustive(l, func(es []c13Event) { runHistory(es, ctx.Rng.Fork()) })
 		}
 		res.Notes = append(res.Notes, "exhaustive: all histories np·x1…xk, k<=4, over the 8-event alphabet")
 	}
